@@ -514,15 +514,26 @@ def _forwarding(chk):
         integ = next(f for f in cdef.body if isinstance(f, ast.FunctionDef) and f.name == "integrate")
         for call in ast.walk(integ):
             if isinstance(call, ast.Call) and isinstance(call.func, ast.Attribute) and call.func.attr.startswith("_integrate_"):
-                for kw in call.keywords:
-                    if kw.arg in _FORWARD:
+                ddef = next((f for f in cdef.body if isinstance(f, ast.FunctionDef) and f.name == call.func.attr), None)
+                if ddef is None:
+                    for bm, bc in ri.mro(mod, cdef)[1:]:
+                        ddef = next((f for f in bc.body if isinstance(f, ast.FunctionDef) and f.name == call.func.attr), None)
+                        if ddef is not None:
+                            break
+                if ddef is None:
+                    raise AnalysisError(f"anchor: driver {call.func.attr} called by {cls}.integrate not found")
+                is_static = any(ast.unparse(d).endswith("staticmethod") for d in ddef.decorator_list) or not (ddef.args.args and ddef.args.args[0].arg in ("self", "cls"))
+                bound, extra, star = sites.bind_call(call, ddef, skip_self=not is_static)
+                if star:
+                    chk.note(f"{cls}.integrate calls {call.func.attr} with *args/**kwargs: forwarding judged by the driver harness only")
+                    continue
+                for pname, arg in bound.items():
+                    if pname in _FORWARD:
                         n += 1
-                        got = ast.unparse(kw.value)
-                        chk.check(got in _FORWARD[kw.arg], "C02.c-forward", f"{RK}::{cls}.integrate[{call.func.attr}.{kw.arg}]",
-                                  f"{cls}.integrate passes {kw.arg}={got}; expected {_FORWARD[kw.arg][0]}", nontrivial=False,
-                                  sample=f"{call.func.attr}({kw.arg}={got})")
-                if call.args:
-                    chk.fail("C02.c-forward", f"{RK}::{cls}.integrate[{call.func.attr}]", "driver called positionally; forwarding not analysable")
+                        got = sites.arg_text(integ, arg)
+                        chk.check(got in _FORWARD[pname], "C02.c-forward", f"{RK}::{cls}.integrate[{call.func.attr}.{pname}]",
+                                  f"{cls}.integrate passes {pname}={got}; expected {_FORWARD[pname][0]}", nontrivial=False,
+                                  sample=f"{call.func.attr}({pname}={got})")
     chk.floor("driver argument forwardings", n, 80)
     # kernel calls inside drivers: table parameters are passed under their own names
     kernels = {}
@@ -543,7 +554,14 @@ def _forwarding(chk):
                 for pname, arg in bound.items():
                     if pname in table_params:
                         m += 1
-                        chk.check(isinstance(arg, ast.Name) and arg.id == pname, "C02.c-forward", f"{RK}::{q}[{call.func.id}.{pname}]",
+                        argr = sites.resolve_local(fn, arg)
+                        # a different *table* name is a swap; an unrelated name (renamed parameter) is left to the driver
+                        # harness, which checks that the same table objects reach the kernels (C10.d / C11.b / C17.c)
+                        swapped = not isinstance(argr, ast.Name) or (argr.id != pname and argr.id in table_params)
+                        if isinstance(argr, ast.Name) and argr.id != pname and not swapped:
+                            chk.note(f"{q} passes {argr.id} for the kernel's parameter {pname}: judged by the driver harness")
+                            continue
+                        chk.check(not swapped, "C02.c-forward", f"{RK}::{q}[{call.func.id}.{pname}]",
                                   f"{q} passes {ast.unparse(arg)} for the kernel's parameter {pname}", nontrivial=False,
                                   sample=f"{call.func.id}(..., {pname}={ast.unparse(arg)})")
     chk.floor("kernel table-parameter forwardings", m, 60)
